@@ -235,7 +235,7 @@ class C06(Property):
             finally:
                 await context.close()
 
-        run_controlled(main, seed, timeout=max(30.0, ctx.time_left() + 60))
+        run_controlled(main, seed, timeout=max(30.0, ctx.time_left() + 900))
         got = ctx.lean("Drivers/C06.lean", self._lines)
         for g, (real, case) in zip(got, self._expect):
             if g != real:
@@ -312,7 +312,7 @@ class C06(Property):
     # --------------------------------------------------------------------------------------------
     async def run_case(self, ctx: Ctx, context, case: dict) -> None:
         try:
-            await asyncio.wait_for(getattr(self, "_" + case["op"])(ctx, context, case), 90)
+            await asyncio.wait_for(getattr(self, "_" + case["op"])(ctx, context, case), 1800)
         except (sd.StepHang, asyncio.TimeoutError) as e:
             ctx.fail(f"{case['op']}:hang", f"the real code did not terminate: {e}", case)
         except Exception as e:  # noqa: BLE001
@@ -363,7 +363,7 @@ class C06(Property):
             p_in.put(t)
         task = asyncio.create_task(step.run())
         try:
-            await sd.settle(step, task, ["x"], budget_s=60.0)
+            await sd.settle(step, task, ["x"], budget_s=300.0)
             hung = not task.done()
             if not hung:
                 task.result()
@@ -500,19 +500,11 @@ class C06(Property):
             ext_in[name].put(TerminationToken())
         if getattr(self, "_network_hung", False):
             return          # one hang is a result; do not spend the watchdog bound on every further network case
-        run = asyncio.create_task(StreamFlowExecutor(wf).run())
-        _, pending = await asyncio.wait([run], timeout=30)
-        if pending:
-            live = sorted(st.name for st in wf.steps.values() if not st.terminated)
+        hung, _, live = await sd.run_workflow(wf, StreamFlowExecutor(wf).run(), stall_s=120.0)
+        if hung:
             self._network_hung = True
-            run.cancel()
-            try:
-                await run
-            except BaseException:  # noqa: BLE001
-                pass
-            ctx.fail("network:hang", f"the loop network did not terminate within 30 s; steps still running: {live}", case)
+            ctx.fail("network:hang", f"the loop network made no progress for 120 s; steps still running: {live}", case)
             return
-        run.result()
         out = list(out_step.get_output_port("val").token_list)
         # the property, end to end
         if not out or not isinstance(out[-1], TerminationToken):
@@ -597,18 +589,10 @@ class C06(Property):
                                    cwl_inputs=cwl_inputs, cwl_inputs_path=job, workflow_config=WorkflowConfig("w", cfg))
         wf = translator.translate()
         await wf.save(context.database)
-        run = asyncio.create_task(StreamFlowExecutor(wf).run())
-        _, pending = await asyncio.wait([run], timeout=120)
-        if pending:
-            live = sorted(st.name for st in wf.steps.values() if not st.terminated)
-            run.cancel()
-            try:
-                await run
-            except BaseException:  # noqa: BLE001
-                pass
-            ctx.fail("cwl:hang", f"the CWL loop workflow did not terminate within 120 s; steps still running: {live[:8]}", case)
+        hung, outputs, live = await sd.run_workflow(wf, StreamFlowExecutor(wf).run())
+        if hung:
+            ctx.fail("cwl:hang", f"the CWL loop workflow made no progress for 180 s; steps still running: {live[:8]}", case)
             return
-        outputs = run.result()
 
         def expected(s0: int):
             vals = list(range(s0 + 1, case["limit"] + 1))
@@ -702,7 +686,7 @@ class C06(Property):
                 p_in.put(tok)
                 for _ in range(sd.TERM_SPINS):
                     await asyncio.sleep(0)
-                await sd.settle(step, task, ["x"], budget_s=5.0) if not task.done() else None
+                await sd.settle(step, task, ["x"], budget_s=300.0) if not task.done() else None
                 for _ in range(200):
                     if task.done():
                         break
